@@ -556,7 +556,7 @@ func (r *Rig) Exec(idx int, st *Step, prev *Step) *Drift {
 		}
 		delete(r.conn.Messages, r.remote[m])
 		delete(r.remote, m)
-	case "ConnUpdateSame", "ConnBad", "ConnCreateDup", "ConnIDChanged":
+	case "ConnUpdateSame", "ConnBad", "ConnCreateDup", "ConnCreateKnown", "ConnIDChanged":
 		if d := r.connOther(idx, st, prev); d != nil {
 			return d
 		}
@@ -808,7 +808,7 @@ func (r *Rig) connOther(idx int, st *Step, prev *Step) *Drift {
 		}
 		return r.submit(idx, st, fmt.Sprintf("MessageUpdated(same literal) %s -> %v %v", m, boxes, fl),
 			imap.NewMessageUpdated(imap.Message{ID: r.remote[m], Flags: flagSet(fl), Date: vm.Date}, vm.Literal, boxIDs(boxes), p, false))
-	case "ConnCreateDup":
+	case "ConnCreateDup", "ConnCreateKnown":
 		m, boxes := st.ArgStr(0), st.ArgStrs(1)
 		vm := r.conn.Messages[r.remote[m]]
 		if vm == nil {
@@ -818,7 +818,7 @@ func (r *Rig) connOther(idx int, st *Step, prev *Step) *Drift {
 		if err != nil {
 			return r.drift(idx, "harness", "%v", err)
 		}
-		return r.submit(idx, st, fmt.Sprintf("MessagesCreated(duplicate) %s in %v", m, boxes),
+		return r.submit(idx, st, fmt.Sprintf("MessagesCreated(known message) %s in %v", m, boxes),
 			imap.NewMessagesCreated(false, &imap.MessageCreated{Message: imap.Message{ID: r.remote[m], Flags: imap.NewFlagSet(), Date: vm.Date},
 				Literal: vm.Literal, MailboxIDs: boxIDs(boxes), ParsedMessage: p}))
 	case "ConnIDChanged":
